@@ -46,6 +46,8 @@ def main():
             {"name": "hypothesis-runner", "path": "/verif/vp/run.py",
              "serves_properties": [c["property_id"] for c in checks],
              "kind_free_text": "Hypothesis 6.168 strategies sharded over 16 seeded worker processes; explicit oracles (NumPy reference models, differential, metamorphic, round-trip, history invariants); shrunk JSON replay files"},
+            {"name": "atheris-swc", "path": "/verif/vp/fuzz/swc_atheris.py", "serves_properties": ["C16"],
+             "kind_free_text": "atheris 3.1 / libFuzzer coverage-guided fuzzing of the SWC reader; bytes are decoded into specs by the C16 Hypothesis strategy (fuzz_one_input), the C16 section-model oracle runs inside the target; started by vp.run C16 as parallel subprocesses"},
         ],
         "checks": checks,
         "not_applicable": na,
